@@ -2,578 +2,29 @@ import PV.Model.Compile
 import PV.Model.PyPrec
 import PV.Proofs.SyntaxStrFlatten
 import PV.Proofs.SyntaxBEq
-import PV.Proofs.C13SynStrFlatten
 /-
   C13.  The source text of `compile()` under PYTHON's grammar.
 
-  * The round trip for the printer of `compile()` itself is PV/Proofs/C13Syn*.lean (namespace
-    `PV.C13R`: the C06 development replayed for `strG S constPiecesRepr`, whose constants are
-    never parenthesised); here:
-  * `reprSame S e enc`: every signed constant of `e` (negative number, float whose repr carries an
-    exponent sign) sits in a position where the generic stringifier prints it without parentheses;
-    there `CompileMapper` prints what `str` prints (`strG_repr_eq_strE`), and the C06 round-trip
-    theorem itself applies to the compiled source.
+  Since the repair of `CompileMapper.map_constant` (`repr` + the sign parenthesisation of the base
+  class) the compile printer IS the stringifier on the modelled constants
+  (`constPiecesRepr_eq`), so the round-trip theorem of C06 applies to the compiled source as it
+  stands; here:
   * `GPos`, `notAdmitted`, `notOk`: where Python's grammar admits an unparenthesised `not …`
     operand (the parser scheme has ONE level for all prefix operators and cannot express that
     `not` ranks below the comparisons).
-  * `gOk`: the local condition of C13 = the C06 condition for (Python table, stringifier table)
-    with constants never parenthesised (`C13R.okTriple`), plus the `not` rule; `gBadPairs` the
-    finite list of (position, child class) pairs that fail it.
+  * `gOk`: the local condition of C13 = the C06 condition `okTriple` for (Python table,
+    stringifier table), plus the `not` rule; `gBadPairs` the finite list of (position, child
+    class) pairs that fail it.
   * `InFragmentPy`: the fragment of `PV.C13.compile_source_groups_current`.
-  (The case enumerations of `strG_repr_eq_strE` are generated text; the file is plain Lean.)
 -/
 namespace PV.C13
 open PV PV.Syntax
 
-/-- a constant whose printed form carries a sign: `str` parenthesises it when the context binds
-tighter than a sum, `repr` never does -/
-def signedC : Const → Bool
-  | .int n => decide (n < 0)
-  | .flt r _ d => decide (d ≠ 0) && (r.startsWith "-" || r.contains '+' || r.contains '-')
-  | _ => false
-
-mutual
-/-- every signed constant is printed at an enclosing precedence `≤ PREC_SUM` (mirrors the
-recursion of `strG` / `strE`) -/
-def reprSame (S : PrintPrec) : Expr → Nat → Bool
-  | .const c, enc => !signedC c || decide (enc ≤ S.sum)
-  | .var _, _ => true
-  | .wildcard, _ => true
-  | .call f as, _ => reprSame S f S.call && reprSameL S as S.none
-  | .callKw f as _ vs, _ => reprSame S f S.call && reprSameL S as S.none && reprSameL S vs S.none
-  | .subscript a (.tuple cs), _ => reprSame S a S.call && reprSameL S cs S.none
-  | .subscript a i, _ => reprSame S a S.call && reprSame S i S.none
-  | .lookup a _, _ => reprSame S a S.call
-  | .nary .sum cs, _ => reprSameL S cs S.sum
-  | .nary .prod cs, _ => reprSameL S cs S.product
-  | .bin .quot a b, _ => reprSame S a S.product && reprSame S b S.product
-  | .bin .floordiv a b, _ => reprSame S a S.product && reprSame S b S.product
-  | .bin .rem a b, _ => reprSame S a S.product && reprSame S b S.product
-  | .bin .pow a b, _ => reprSame S a (S.power + 1) && reprSame S b S.power
-  | .bin .lshift a b, _ => reprSame S a (S.shift + 1) && reprSame S b (S.shift + 1)
-  | .bin .rshift a b, _ => reprSame S a (S.shift + 1) && reprSame S b (S.shift + 1)
-  | .un _ a, _ => reprSame S a S.unary
-  | .nary .bor cs, _ => reprSameL S cs S.bor
-  | .nary .bxor cs, _ => reprSameL S cs S.bxor
-  | .nary .band cs, _ => reprSameL S cs S.band
-  | .nary .lor cs, _ => reprSameL S cs S.lor
-  | .nary .land cs, _ => reprSameL S cs S.land
-  | .cmp _ a b, _ => reprSame S a (S.comparison + 1) && reprSame S b (S.comparison + 1)
-  | .ite c t e, _ => reprSame S t S.lor && reprSame S c S.lor && reprSame S e S.lor
-  | .tuple cs, _ => reprSameL S cs S.none
-  | .list cs, _ => reprSameL S cs S.none
-  | .slice cs, _ => reprSameSlice S cs
-  | .nary .min cs, _ => reprSameL S cs S.none
-  | .nary .max cs, _ => reprSameL S cs S.none
-  | .cse c _ _, _ => reprSame S c S.none
-  | _, _ => true
-def reprSameL (S : PrintPrec) : List Expr → Nat → Bool
-  | [], _ => true
-  | c :: cs, enc => reprSame S c enc && reprSameL S cs enc
-def reprSameSlice (S : PrintPrec) : List Expr → Bool
-  | [] => true
-  | .const .none :: cs => reprSameSlice S cs
-  | c :: cs => reprSame S c S.none && reprSameSlice S cs
-end
-
-theorem constRepr_eq (S : PrintPrec) (c : Const) (enc : Nat)
-    (h : (!signedC c || decide (enc ≤ S.sum)) = true) :
-    constPiecesRepr c enc = constPieces S c enc := by
-  cases c with
-  | int n =>
-    simp only [signedC, Bool.or_eq_true, Bool.not_eq_true', decide_eq_false_iff_not,
-      decide_eq_true_eq] at h
-    simp only [constPiecesRepr, constPieces]
-    split
-    · rename_i hn
-      have : ¬ enc > S.sum := by rcases h with h | h <;> omega
-      simp [this]
-    · rfl
-  | bool b => rfl
-  | flt r n d =>
-    simp only [constPiecesRepr, constPieces]
-    by_cases hd : d = 0
-    · simp [hd]
-    · simp only [signedC, hd, ne_eq, not_false_eq_true, decide_true, Bool.true_and] at h
-      simp only [hd, if_false]
-      generalize r.contains '+' = bp at h ⊢
-      generalize r.contains '-' = bm at h ⊢
-      generalize r.startsWith "-" = bn at h ⊢
-      by_cases hgt : enc > S.sum
-      · have : ¬ enc ≤ S.sum := by omega
-        cases bn <;> cases bp <;> cases bm <;> simp_all <;> omega
-      · have hng : ¬ S.sum < enc := by omega
-        cases bn <;> cases bp <;> cases bm <;> simp [hng]
-  | str s => rfl
-  | none => rfl
-
-mutual
-/-- **where no signed constant needs parentheses, `CompileMapper` prints what `str` prints** -/
-theorem strG_repr_eq_strE (S : PrintPrec) : ∀ (e : Expr) (enc : Nat), reprSame S e enc = true →
-    strG S constPiecesRepr e enc = strE S e enc
-  | .const c, enc, h => by
-      simp only [reprSame] at h
-      simp only [strG, strE, constRepr_eq S c enc h]
-  | .var x, _, _ => by simp only [strG, strE]
-  | .wildcard, _, _ => by simp only [strG, strE]
-  | .call f as, _, h => by
-      simp only [reprSame, Bool.and_eq_true] at h
-      simp only [strG, strE, strG_repr_eq_strE S f _ h.1, strGL_repr_eq S as _ h.2]
-  | .callKw f as ns vs, _, h => by
-      simp only [reprSame, Bool.and_eq_true] at h
-      simp only [strG, strE, strG_repr_eq_strE S f _ h.1.1, strGL_repr_eq S as _ h.1.2,
-        strGL_repr_eq S vs _ h.2]
-  | .subscript a (.tuple cs), enc, h => by
-      simp only [reprSame, Bool.and_eq_true] at h
-      simp only [strG, strE, strG_repr_eq_strE S a _ h.1, strGL_repr_eq S cs _ h.2]
-  | .subscript a (.const (.int n)), enc, h => by
-      have h' : reprSame S a S.call = true ∧ reprSame S (.const (.int n)) S.none = true := by
-        rw [reprSame] at h
-        · simpa [Bool.and_eq_true] using h
-        all_goals (intro _ h; cases h)
-      rw [strG, strE, strG_repr_eq_strE S a _ h'.1, strG_repr_eq_strE S (.const (.int n)) _ h'.2]
-      all_goals (intro _ h; cases h)
-  | .subscript a (.const (.bool n)), enc, h => by
-      have h' : reprSame S a S.call = true ∧ reprSame S (.const (.bool n)) S.none = true := by
-        rw [reprSame] at h
-        · simpa [Bool.and_eq_true] using h
-        all_goals (intro _ h; cases h)
-      rw [strG, strE, strG_repr_eq_strE S a _ h'.1, strG_repr_eq_strE S (.const (.bool n)) _ h'.2]
-      all_goals (intro _ h; cases h)
-  | .subscript a (.const (.flt r n d)), enc, h => by
-      have h' : reprSame S a S.call = true ∧ reprSame S (.const (.flt r n d)) S.none = true := by
-        rw [reprSame] at h
-        · simpa [Bool.and_eq_true] using h
-        all_goals (intro _ h; cases h)
-      rw [strG, strE, strG_repr_eq_strE S a _ h'.1, strG_repr_eq_strE S (.const (.flt r n d)) _ h'.2]
-      all_goals (intro _ h; cases h)
-  | .subscript a (.const (.str n)), enc, h => by
-      have h' : reprSame S a S.call = true ∧ reprSame S (.const (.str n)) S.none = true := by
-        rw [reprSame] at h
-        · simpa [Bool.and_eq_true] using h
-        all_goals (intro _ h; cases h)
-      rw [strG, strE, strG_repr_eq_strE S a _ h'.1, strG_repr_eq_strE S (.const (.str n)) _ h'.2]
-      all_goals (intro _ h; cases h)
-  | .subscript a (.var x), enc, h => by
-      have h' : reprSame S a S.call = true ∧ reprSame S (.var x) S.none = true := by
-        rw [reprSame] at h
-        · simpa [Bool.and_eq_true] using h
-        all_goals (intro _ h; cases h)
-      rw [strG, strE, strG_repr_eq_strE S a _ h'.1, strG_repr_eq_strE S (.var x) _ h'.2]
-      all_goals (intro _ h; cases h)
-  | .subscript a (.nary o xs), enc, h => by
-      have h' : reprSame S a S.call = true ∧ reprSame S (.nary o xs) S.none = true := by
-        rw [reprSame] at h
-        · simpa [Bool.and_eq_true] using h
-        all_goals (intro _ h; cases h)
-      rw [strG, strE, strG_repr_eq_strE S a _ h'.1, strG_repr_eq_strE S (.nary o xs) _ h'.2]
-      all_goals (intro _ h; cases h)
-  | .subscript a (.bin o x y), enc, h => by
-      have h' : reprSame S a S.call = true ∧ reprSame S (.bin o x y) S.none = true := by
-        rw [reprSame] at h
-        · simpa [Bool.and_eq_true] using h
-        all_goals (intro _ h; cases h)
-      rw [strG, strE, strG_repr_eq_strE S a _ h'.1, strG_repr_eq_strE S (.bin o x y) _ h'.2]
-      all_goals (intro _ h; cases h)
-  | .subscript a (.un o x), enc, h => by
-      have h' : reprSame S a S.call = true ∧ reprSame S (.un o x) S.none = true := by
-        rw [reprSame] at h
-        · simpa [Bool.and_eq_true] using h
-        all_goals (intro _ h; cases h)
-      rw [strG, strE, strG_repr_eq_strE S a _ h'.1, strG_repr_eq_strE S (.un o x) _ h'.2]
-      all_goals (intro _ h; cases h)
-  | .subscript a (.cmp o x y), enc, h => by
-      have h' : reprSame S a S.call = true ∧ reprSame S (.cmp o x y) S.none = true := by
-        rw [reprSame] at h
-        · simpa [Bool.and_eq_true] using h
-        all_goals (intro _ h; cases h)
-      rw [strG, strE, strG_repr_eq_strE S a _ h'.1, strG_repr_eq_strE S (.cmp o x y) _ h'.2]
-      all_goals (intro _ h; cases h)
-  | .subscript a (.ite x y z), enc, h => by
-      have h' : reprSame S a S.call = true ∧ reprSame S (.ite x y z) S.none = true := by
-        rw [reprSame] at h
-        · simpa [Bool.and_eq_true] using h
-        all_goals (intro _ h; cases h)
-      rw [strG, strE, strG_repr_eq_strE S a _ h'.1, strG_repr_eq_strE S (.ite x y z) _ h'.2]
-      all_goals (intro _ h; cases h)
-  | .subscript a (.call f as), enc, h => by
-      have h' : reprSame S a S.call = true ∧ reprSame S (.call f as) S.none = true := by
-        rw [reprSame] at h
-        · simpa [Bool.and_eq_true] using h
-        all_goals (intro _ h; cases h)
-      rw [strG, strE, strG_repr_eq_strE S a _ h'.1, strG_repr_eq_strE S (.call f as) _ h'.2]
-      all_goals (intro _ h; cases h)
-  | .subscript a (.callKw f as ns vs), enc, h => by
-      have h' : reprSame S a S.call = true ∧ reprSame S (.callKw f as ns vs) S.none = true := by
-        rw [reprSame] at h
-        · simpa [Bool.and_eq_true] using h
-        all_goals (intro _ h; cases h)
-      rw [strG, strE, strG_repr_eq_strE S a _ h'.1, strG_repr_eq_strE S (.callKw f as ns vs) _ h'.2]
-      all_goals (intro _ h; cases h)
-  | .subscript a (.subscript x y), enc, h => by
-      have h' : reprSame S a S.call = true ∧ reprSame S (.subscript x y) S.none = true := by
-        rw [reprSame] at h
-        · simpa [Bool.and_eq_true] using h
-        all_goals (intro _ h; cases h)
-      rw [strG, strE, strG_repr_eq_strE S a _ h'.1, strG_repr_eq_strE S (.subscript x y) _ h'.2]
-      all_goals (intro _ h; cases h)
-  | .subscript a (.lookup x n), enc, h => by
-      have h' : reprSame S a S.call = true ∧ reprSame S (.lookup x n) S.none = true := by
-        rw [reprSame] at h
-        · simpa [Bool.and_eq_true] using h
-        all_goals (intro _ h; cases h)
-      rw [strG, strE, strG_repr_eq_strE S a _ h'.1, strG_repr_eq_strE S (.lookup x n) _ h'.2]
-      all_goals (intro _ h; cases h)
-  | .subscript a (.cse x p s), enc, h => by
-      have h' : reprSame S a S.call = true ∧ reprSame S (.cse x p s) S.none = true := by
-        rw [reprSame] at h
-        · simpa [Bool.and_eq_true] using h
-        all_goals (intro _ h; cases h)
-      rw [strG, strE, strG_repr_eq_strE S a _ h'.1, strG_repr_eq_strE S (.cse x p s) _ h'.2]
-      all_goals (intro _ h; cases h)
-  | .subscript a (.subst x vs xs), enc, h => by
-      have h' : reprSame S a S.call = true ∧ reprSame S (.subst x vs xs) S.none = true := by
-        rw [reprSame] at h
-        · simpa [Bool.and_eq_true] using h
-        all_goals (intro _ h; cases h)
-      rw [strG, strE, strG_repr_eq_strE S a _ h'.1, strG_repr_eq_strE S (.subst x vs xs) _ h'.2]
-      all_goals (intro _ h; cases h)
-  | .subscript a (.deriv x vs), enc, h => by
-      have h' : reprSame S a S.call = true ∧ reprSame S (.deriv x vs) S.none = true := by
-        rw [reprSame] at h
-        · simpa [Bool.and_eq_true] using h
-        all_goals (intro _ h; cases h)
-      rw [strG, strE, strG_repr_eq_strE S a _ h'.1, strG_repr_eq_strE S (.deriv x vs) _ h'.2]
-      all_goals (intro _ h; cases h)
-  | .subscript a (.slice xs), enc, h => by
-      have h' : reprSame S a S.call = true ∧ reprSame S (.slice xs) S.none = true := by
-        rw [reprSame] at h
-        · simpa [Bool.and_eq_true] using h
-        all_goals (intro _ h; cases h)
-      rw [strG, strE, strG_repr_eq_strE S a _ h'.1, strG_repr_eq_strE S (.slice xs) _ h'.2]
-      all_goals (intro _ h; cases h)
-  | .subscript a .nan, enc, h => by
-      have h' : reprSame S a S.call = true ∧ reprSame S .nan S.none = true := by
-        rw [reprSame] at h
-        · simpa [Bool.and_eq_true] using h
-        all_goals (intro _ h; cases h)
-      rw [strG, strE, strG_repr_eq_strE S a _ h'.1, strG_repr_eq_strE S .nan _ h'.2]
-      all_goals (intro _ h; cases h)
-  | .subscript a .wildcard, enc, h => by
-      have h' : reprSame S a S.call = true ∧ reprSame S .wildcard S.none = true := by
-        rw [reprSame] at h
-        · simpa [Bool.and_eq_true] using h
-        all_goals (intro _ h; cases h)
-      rw [strG, strE, strG_repr_eq_strE S a _ h'.1, strG_repr_eq_strE S .wildcard _ h'.2]
-      all_goals (intro _ h; cases h)
-  | .subscript a (.dotWild n), enc, h => by
-      have h' : reprSame S a S.call = true ∧ reprSame S (.dotWild n) S.none = true := by
-        rw [reprSame] at h
-        · simpa [Bool.and_eq_true] using h
-        all_goals (intro _ h; cases h)
-      rw [strG, strE, strG_repr_eq_strE S a _ h'.1, strG_repr_eq_strE S (.dotWild n) _ h'.2]
-      all_goals (intro _ h; cases h)
-  | .subscript a (.starWild n), enc, h => by
-      have h' : reprSame S a S.call = true ∧ reprSame S (.starWild n) S.none = true := by
-        rw [reprSame] at h
-        · simpa [Bool.and_eq_true] using h
-        all_goals (intro _ h; cases h)
-      rw [strG, strE, strG_repr_eq_strE S a _ h'.1, strG_repr_eq_strE S (.starWild n) _ h'.2]
-      all_goals (intro _ h; cases h)
-  | .subscript a .funcSym, enc, h => by
-      have h' : reprSame S a S.call = true ∧ reprSame S .funcSym S.none = true := by
-        rw [reprSame] at h
-        · simpa [Bool.and_eq_true] using h
-        all_goals (intro _ h; cases h)
-      rw [strG, strE, strG_repr_eq_strE S a _ h'.1, strG_repr_eq_strE S .funcSym _ h'.2]
-      all_goals (intro _ h; cases h)
-  | .subscript a (.list xs), enc, h => by
-      have h' : reprSame S a S.call = true ∧ reprSame S (.list xs) S.none = true := by
-        rw [reprSame] at h
-        · simpa [Bool.and_eq_true] using h
-        all_goals (intro _ h; cases h)
-      rw [strG, strE, strG_repr_eq_strE S a _ h'.1, strG_repr_eq_strE S (.list xs) _ h'.2]
-      all_goals (intro _ h; cases h)
-  | .subscript a (.const .none), enc, h => by
-      have h' : reprSame S a S.call = true ∧ reprSame S (.const .none) S.none = true := by
-        rw [reprSame] at h
-        · simpa [Bool.and_eq_true] using h
-        all_goals (intro _ h; cases h)
-      rw [strG, strE, strG_repr_eq_strE S a _ h'.1, strG_repr_eq_strE S (.const .none) _ h'.2]
-      all_goals (intro _ h; cases h)
-  | .lookup a n, enc, h => by
-      simp only [reprSame] at h
-      simp only [strG, strE, strG_repr_eq_strE S a _ h]
-  | .nary .sum cs, enc, h => by
-      simp only [reprSame] at h
-      simp only [strG, strE, strGL_repr_eq S cs _ h]
-  | .nary .bor cs, enc, h => by
-      simp only [reprSame] at h
-      simp only [strG, strE, strGL_repr_eq S cs _ h]
-  | .nary .bxor cs, enc, h => by
-      simp only [reprSame] at h
-      simp only [strG, strE, strGL_repr_eq S cs _ h]
-  | .nary .band cs, enc, h => by
-      simp only [reprSame] at h
-      simp only [strG, strE, strGL_repr_eq S cs _ h]
-  | .nary .lor cs, enc, h => by
-      simp only [reprSame] at h
-      simp only [strG, strE, strGL_repr_eq S cs _ h]
-  | .nary .land cs, enc, h => by
-      simp only [reprSame] at h
-      simp only [strG, strE, strGL_repr_eq S cs _ h]
-  | .nary .min cs, enc, h => by
-      simp only [reprSame] at h
-      simp only [strG, strE, strGL_repr_eq S cs _ h]
-  | .nary .max cs, enc, h => by
-      simp only [reprSame] at h
-      simp only [strG, strE, strGL_repr_eq S cs _ h]
-  | .nary .prod cs, enc, h => by
-      simp only [reprSame] at h
-      simp only [strG, strE, strGForceL_repr_eq S false cs _ h]
-  | .bin .quot a b, enc, h => by
-      simp only [reprSame, Bool.and_eq_true] at h
-      simp only [strG, strE, strG_repr_eq_strE S a _ h.1, strG_repr_eq_strE S b _ h.2]
-  | .bin .floordiv a b, enc, h => by
-      simp only [reprSame, Bool.and_eq_true] at h
-      simp only [strG, strE, strG_repr_eq_strE S a _ h.1, strG_repr_eq_strE S b _ h.2]
-  | .bin .rem a b, enc, h => by
-      simp only [reprSame, Bool.and_eq_true] at h
-      simp only [strG, strE, strG_repr_eq_strE S a _ h.1, strG_repr_eq_strE S b _ h.2]
-  | .bin .pow a b, enc, h => by
-      simp only [reprSame, Bool.and_eq_true] at h
-      simp only [strG, strE, strG_repr_eq_strE S a _ h.1, strG_repr_eq_strE S b _ h.2]
-  | .bin .lshift a b, enc, h => by
-      simp only [reprSame, Bool.and_eq_true] at h
-      simp only [strG, strE, strG_repr_eq_strE S a _ h.1, strG_repr_eq_strE S b _ h.2]
-  | .bin .rshift a b, enc, h => by
-      simp only [reprSame, Bool.and_eq_true] at h
-      simp only [strG, strE, strG_repr_eq_strE S a _ h.1, strG_repr_eq_strE S b _ h.2]
-  | .un .bnot a, enc, h => by
-      simp only [reprSame] at h
-      simp only [strG, strE, strG_repr_eq_strE S a _ h]
-  | .un .lnot a, enc, h => by
-      simp only [reprSame] at h
-      simp only [strG, strE, strG_repr_eq_strE S a _ h]
-  | .cmp o a b, enc, h => by
-      simp only [reprSame, Bool.and_eq_true] at h
-      simp only [strG, strE, strG_repr_eq_strE S a _ h.1, strG_repr_eq_strE S b _ h.2]
-  | .ite c t e, enc, h => by
-      simp only [reprSame, Bool.and_eq_true] at h
-      simp only [strG, strE, strG_repr_eq_strE S t _ h.1.1, strG_repr_eq_strE S c _ h.1.2,
-        strG_repr_eq_strE S e _ h.2]
-  | .tuple cs, _, h => by
-      simp only [reprSame] at h
-      simp only [strG, strE, strGL_repr_eq S cs _ h]
-  | .list cs, _, h => by
-      simp only [reprSame] at h
-      simp only [strG, strE, strGL_repr_eq S cs _ h]
-  | .slice cs, enc, h => by
-      simp only [reprSame] at h
-      simp only [strG, strE, strGSliceL_repr_eq S cs h]
-  | .cse c _ _, _, h => by
-      simp only [reprSame] at h
-      simp only [strG, strE, strG_repr_eq_strE S c _ h]
-  | .nan, _, _ => by simp only [strG, strE]
-  | .funcSym, _, _ => by simp only [strG, strE]
-  | .dotWild _, _, _ => by simp only [strG, strE]
-  | .starWild _, _, _ => by simp only [strG, strE]
-  | .subst .., _, _ => by simp only [strG, strE]
-  | .deriv .., _, _ => by simp only [strG, strE]
-theorem strGL_repr_eq (S : PrintPrec) : ∀ (cs : List Expr) (enc : Nat), reprSameL S cs enc = true →
-    strGL S constPiecesRepr cs enc = strL S cs enc
-  | [], _, _ => by simp only [strGL, strL]
-  | c :: cs, enc, h => by
-      simp only [reprSameL, Bool.and_eq_true] at h
-      simp only [strGL, strL, strG_repr_eq_strE S c _ h.1, strGL_repr_eq S cs _ h.2]
-theorem strGForceL_repr_eq (S : PrintPrec) (all : Bool) : ∀ (cs : List Expr) (enc : Nat),
-    reprSameL S cs enc = true → strGForceL S constPiecesRepr all cs enc = strForceL S all cs enc
-  | [], _, _ => by simp only [strGForceL, strForceL]
-  | c :: cs, enc, h => by
-      simp only [reprSameL, Bool.and_eq_true] at h
-      simp only [strGForceL, strForceL, strG_repr_eq_strE S c _ h.1, strGForceL_repr_eq S all cs _ h.2]
-theorem strGSliceL_repr_eq (S : PrintPrec) : ∀ (cs : List Expr), reprSameSlice S cs = true →
-    strGSliceL S constPiecesRepr cs = strSliceL S cs
-  | [], _ => by simp only [strGSliceL, strSliceL]
-  | .const .none :: cs, h => by
-      simp only [reprSameSlice] at h
-      simp only [strGSliceL, strSliceL, strGSliceL_repr_eq S cs h]
-  | .const (.int n) :: cs, h => by
-      have h' : reprSame S (.const (.int n)) S.none = true ∧ reprSameSlice S cs = true := by
-        rw [reprSameSlice] at h
-        · simpa [Bool.and_eq_true] using h
-        all_goals (intro h; cases h)
-      rw [strGSliceL, strSliceL, strG_repr_eq_strE S (.const (.int n)) _ h'.1, strGSliceL_repr_eq S cs h'.2]
-      all_goals (intro h; cases h)
-  | .const (.bool n) :: cs, h => by
-      have h' : reprSame S (.const (.bool n)) S.none = true ∧ reprSameSlice S cs = true := by
-        rw [reprSameSlice] at h
-        · simpa [Bool.and_eq_true] using h
-        all_goals (intro h; cases h)
-      rw [strGSliceL, strSliceL, strG_repr_eq_strE S (.const (.bool n)) _ h'.1, strGSliceL_repr_eq S cs h'.2]
-      all_goals (intro h; cases h)
-  | .const (.flt r n d) :: cs, h => by
-      have h' : reprSame S (.const (.flt r n d)) S.none = true ∧ reprSameSlice S cs = true := by
-        rw [reprSameSlice] at h
-        · simpa [Bool.and_eq_true] using h
-        all_goals (intro h; cases h)
-      rw [strGSliceL, strSliceL, strG_repr_eq_strE S (.const (.flt r n d)) _ h'.1, strGSliceL_repr_eq S cs h'.2]
-      all_goals (intro h; cases h)
-  | .const (.str n) :: cs, h => by
-      have h' : reprSame S (.const (.str n)) S.none = true ∧ reprSameSlice S cs = true := by
-        rw [reprSameSlice] at h
-        · simpa [Bool.and_eq_true] using h
-        all_goals (intro h; cases h)
-      rw [strGSliceL, strSliceL, strG_repr_eq_strE S (.const (.str n)) _ h'.1, strGSliceL_repr_eq S cs h'.2]
-      all_goals (intro h; cases h)
-  | .var x :: cs, h => by
-      have h' : reprSame S (.var x) S.none = true ∧ reprSameSlice S cs = true := by
-        rw [reprSameSlice] at h
-        · simpa [Bool.and_eq_true] using h
-        all_goals (intro h; cases h)
-      rw [strGSliceL, strSliceL, strG_repr_eq_strE S (.var x) _ h'.1, strGSliceL_repr_eq S cs h'.2]
-      all_goals (intro h; cases h)
-  | .nary o xs :: cs, h => by
-      have h' : reprSame S (.nary o xs) S.none = true ∧ reprSameSlice S cs = true := by
-        rw [reprSameSlice] at h
-        · simpa [Bool.and_eq_true] using h
-        all_goals (intro h; cases h)
-      rw [strGSliceL, strSliceL, strG_repr_eq_strE S (.nary o xs) _ h'.1, strGSliceL_repr_eq S cs h'.2]
-      all_goals (intro h; cases h)
-  | .bin o x y :: cs, h => by
-      have h' : reprSame S (.bin o x y) S.none = true ∧ reprSameSlice S cs = true := by
-        rw [reprSameSlice] at h
-        · simpa [Bool.and_eq_true] using h
-        all_goals (intro h; cases h)
-      rw [strGSliceL, strSliceL, strG_repr_eq_strE S (.bin o x y) _ h'.1, strGSliceL_repr_eq S cs h'.2]
-      all_goals (intro h; cases h)
-  | .un o x :: cs, h => by
-      have h' : reprSame S (.un o x) S.none = true ∧ reprSameSlice S cs = true := by
-        rw [reprSameSlice] at h
-        · simpa [Bool.and_eq_true] using h
-        all_goals (intro h; cases h)
-      rw [strGSliceL, strSliceL, strG_repr_eq_strE S (.un o x) _ h'.1, strGSliceL_repr_eq S cs h'.2]
-      all_goals (intro h; cases h)
-  | .cmp o x y :: cs, h => by
-      have h' : reprSame S (.cmp o x y) S.none = true ∧ reprSameSlice S cs = true := by
-        rw [reprSameSlice] at h
-        · simpa [Bool.and_eq_true] using h
-        all_goals (intro h; cases h)
-      rw [strGSliceL, strSliceL, strG_repr_eq_strE S (.cmp o x y) _ h'.1, strGSliceL_repr_eq S cs h'.2]
-      all_goals (intro h; cases h)
-  | .ite x y z :: cs, h => by
-      have h' : reprSame S (.ite x y z) S.none = true ∧ reprSameSlice S cs = true := by
-        rw [reprSameSlice] at h
-        · simpa [Bool.and_eq_true] using h
-        all_goals (intro h; cases h)
-      rw [strGSliceL, strSliceL, strG_repr_eq_strE S (.ite x y z) _ h'.1, strGSliceL_repr_eq S cs h'.2]
-      all_goals (intro h; cases h)
-  | .call f as :: cs, h => by
-      have h' : reprSame S (.call f as) S.none = true ∧ reprSameSlice S cs = true := by
-        rw [reprSameSlice] at h
-        · simpa [Bool.and_eq_true] using h
-        all_goals (intro h; cases h)
-      rw [strGSliceL, strSliceL, strG_repr_eq_strE S (.call f as) _ h'.1, strGSliceL_repr_eq S cs h'.2]
-      all_goals (intro h; cases h)
-  | .callKw f as ns vs :: cs, h => by
-      have h' : reprSame S (.callKw f as ns vs) S.none = true ∧ reprSameSlice S cs = true := by
-        rw [reprSameSlice] at h
-        · simpa [Bool.and_eq_true] using h
-        all_goals (intro h; cases h)
-      rw [strGSliceL, strSliceL, strG_repr_eq_strE S (.callKw f as ns vs) _ h'.1, strGSliceL_repr_eq S cs h'.2]
-      all_goals (intro h; cases h)
-  | .subscript x y :: cs, h => by
-      have h' : reprSame S (.subscript x y) S.none = true ∧ reprSameSlice S cs = true := by
-        rw [reprSameSlice] at h
-        · simpa [Bool.and_eq_true] using h
-        all_goals (intro h; cases h)
-      rw [strGSliceL, strSliceL, strG_repr_eq_strE S (.subscript x y) _ h'.1, strGSliceL_repr_eq S cs h'.2]
-      all_goals (intro h; cases h)
-  | .lookup x n :: cs, h => by
-      have h' : reprSame S (.lookup x n) S.none = true ∧ reprSameSlice S cs = true := by
-        rw [reprSameSlice] at h
-        · simpa [Bool.and_eq_true] using h
-        all_goals (intro h; cases h)
-      rw [strGSliceL, strSliceL, strG_repr_eq_strE S (.lookup x n) _ h'.1, strGSliceL_repr_eq S cs h'.2]
-      all_goals (intro h; cases h)
-  | .cse x p s :: cs, h => by
-      have h' : reprSame S (.cse x p s) S.none = true ∧ reprSameSlice S cs = true := by
-        rw [reprSameSlice] at h
-        · simpa [Bool.and_eq_true] using h
-        all_goals (intro h; cases h)
-      rw [strGSliceL, strSliceL, strG_repr_eq_strE S (.cse x p s) _ h'.1, strGSliceL_repr_eq S cs h'.2]
-      all_goals (intro h; cases h)
-  | .subst x vs xs :: cs, h => by
-      have h' : reprSame S (.subst x vs xs) S.none = true ∧ reprSameSlice S cs = true := by
-        rw [reprSameSlice] at h
-        · simpa [Bool.and_eq_true] using h
-        all_goals (intro h; cases h)
-      rw [strGSliceL, strSliceL, strG_repr_eq_strE S (.subst x vs xs) _ h'.1, strGSliceL_repr_eq S cs h'.2]
-      all_goals (intro h; cases h)
-  | .deriv x vs :: cs, h => by
-      have h' : reprSame S (.deriv x vs) S.none = true ∧ reprSameSlice S cs = true := by
-        rw [reprSameSlice] at h
-        · simpa [Bool.and_eq_true] using h
-        all_goals (intro h; cases h)
-      rw [strGSliceL, strSliceL, strG_repr_eq_strE S (.deriv x vs) _ h'.1, strGSliceL_repr_eq S cs h'.2]
-      all_goals (intro h; cases h)
-  | .slice xs :: cs, h => by
-      have h' : reprSame S (.slice xs) S.none = true ∧ reprSameSlice S cs = true := by
-        rw [reprSameSlice] at h
-        · simpa [Bool.and_eq_true] using h
-        all_goals (intro h; cases h)
-      rw [strGSliceL, strSliceL, strG_repr_eq_strE S (.slice xs) _ h'.1, strGSliceL_repr_eq S cs h'.2]
-      all_goals (intro h; cases h)
-  | .nan :: cs, h => by
-      have h' : reprSame S .nan S.none = true ∧ reprSameSlice S cs = true := by
-        rw [reprSameSlice] at h
-        · simpa [Bool.and_eq_true] using h
-        all_goals (intro h; cases h)
-      rw [strGSliceL, strSliceL, strG_repr_eq_strE S .nan _ h'.1, strGSliceL_repr_eq S cs h'.2]
-      all_goals (intro h; cases h)
-  | .wildcard :: cs, h => by
-      have h' : reprSame S .wildcard S.none = true ∧ reprSameSlice S cs = true := by
-        rw [reprSameSlice] at h
-        · simpa [Bool.and_eq_true] using h
-        all_goals (intro h; cases h)
-      rw [strGSliceL, strSliceL, strG_repr_eq_strE S .wildcard _ h'.1, strGSliceL_repr_eq S cs h'.2]
-      all_goals (intro h; cases h)
-  | .dotWild n :: cs, h => by
-      have h' : reprSame S (.dotWild n) S.none = true ∧ reprSameSlice S cs = true := by
-        rw [reprSameSlice] at h
-        · simpa [Bool.and_eq_true] using h
-        all_goals (intro h; cases h)
-      rw [strGSliceL, strSliceL, strG_repr_eq_strE S (.dotWild n) _ h'.1, strGSliceL_repr_eq S cs h'.2]
-      all_goals (intro h; cases h)
-  | .starWild n :: cs, h => by
-      have h' : reprSame S (.starWild n) S.none = true ∧ reprSameSlice S cs = true := by
-        rw [reprSameSlice] at h
-        · simpa [Bool.and_eq_true] using h
-        all_goals (intro h; cases h)
-      rw [strGSliceL, strSliceL, strG_repr_eq_strE S (.starWild n) _ h'.1, strGSliceL_repr_eq S cs h'.2]
-      all_goals (intro h; cases h)
-  | .funcSym :: cs, h => by
-      have h' : reprSame S .funcSym S.none = true ∧ reprSameSlice S cs = true := by
-        rw [reprSameSlice] at h
-        · simpa [Bool.and_eq_true] using h
-        all_goals (intro h; cases h)
-      rw [strGSliceL, strSliceL, strG_repr_eq_strE S .funcSym _ h'.1, strGSliceL_repr_eq S cs h'.2]
-      all_goals (intro h; cases h)
-  | .tuple xs :: cs, h => by
-      have h' : reprSame S (.tuple xs) S.none = true ∧ reprSameSlice S cs = true := by
-        rw [reprSameSlice] at h
-        · simpa [Bool.and_eq_true] using h
-        all_goals (intro h; cases h)
-      rw [strGSliceL, strSliceL, strG_repr_eq_strE S (.tuple xs) _ h'.1, strGSliceL_repr_eq S cs h'.2]
-      all_goals (intro h; cases h)
-  | .list xs :: cs, h => by
-      have h' : reprSame S (.list xs) S.none = true ∧ reprSameSlice S cs = true := by
-        rw [reprSameSlice] at h
-        · simpa [Bool.and_eq_true] using h
-        all_goals (intro h; cases h)
-      rw [strGSliceL, strSliceL, strG_repr_eq_strE S (.list xs) _ h'.1, strGSliceL_repr_eq S cs h'.2]
-      all_goals (intro h; cases h)
-end
+/-- **the repaired constant printer of `CompileMapper` is the stringifier's** (on ints, bools,
+floats: `repr` and `str` give the same text, and the sign parenthesisation is the same code) -/
+theorem constPiecesRepr_eq (S : PrintPrec) : constPiecesRepr S = constPieces S := by
+  funext c enc
+  cases c <;> rfl
 
 /-! ### the keyword `not`, which the parser scheme cannot rank -/
 
@@ -653,11 +104,10 @@ end
 /-! ### the local condition of C13 and its finite table -/
 
 /-- THE local condition for the compiled source under Python's grammar:
-* the C06 condition for (parser table, stringifier table) with the constants of
-  `CompileMapper` (`repr`, never parenthesised): `C13R.okTriple`;
+* the C06 condition `okTriple` for (parser table, stringifier table);
 * a `not` child is parenthesised or admitted by Python's grammar. -/
 def gOk (P : ParserPrec) (S : PrintPrec) (g : GPos) (k : Kind) : Bool :=
-  C13R.okTriple P S g.pos k
+  okTriple P S g.pos k
   && (!(k == .un .lnot) || parenthesised S g.pos k || notAdmitted P g)
 
 def allGPos : List GPos := allPos.map .std ++ [.notArg]
@@ -667,12 +117,12 @@ def gBadPairs (P : ParserPrec) (S : PrintPrec) : List (GPos × Kind) :=
   (allGPos.flatMap fun g => allKinds.map fun k => (g, k)).filter fun gk => !gOk P S gk.1 gk.2
 
 /-- the fragment of `PV.C13.compile_source_groups_current`: covered node shapes, every child
-passes `C13R.okTriple` in its position (hence `gOk`: every `not` child passes `notAt`) -/
+passes `okTriple` in its position (hence `gOk`: every `not` child passes `notAt`) -/
 def InFragmentPy (P : ParserPrec) (S : PrintPrec) (e : Expr) : Bool :=
-  C13R.InFragment P S e && notOk P S e
+  InFragment P S e && notOk P S e
 
 /-- the same with arbitrarily nested sums and products -/
 def InFragmentPyFlat (P : ParserPrec) (S : PrintPrec) (e : Expr) : Bool :=
-  C13R.InFragmentFlat P S e && notOk P S (flattenAssoc e)
+  InFragmentFlat P S e && notOk P S (flattenAssoc e)
 
 end PV.C13
